@@ -1089,6 +1089,7 @@ def run(ctx):
     e2e(ctx)
     lazy_stream(ctx)
     xscope(ctx)
+    scope_tie(ctx)
     ctx.extra['lean_parse_mismatch'] = ctx.extra.get('lean_parse_mismatch', [])[:5]
 
 
@@ -1406,3 +1407,100 @@ def pretrans_tie(ctx, trees):
                            model=got, impl=real)
         else:
             ctx.count('pretrans:equal')
+
+
+# ---------------------------------------------------------------------------------------------------------------
+# tie (3c): the Lean model of get_globals_and_locals + extract_vars' cell override + eval of one name (Model/Scope.lean)
+# against the real functions: for every test name, the value the real machinery resolves == the model's
+
+SC_NAMES = ['GV', 'v', 'w', 'cv', 'X']      # X: a name the query's code does not mention (what raw_sql('$X') would look up)
+
+SC_CREATOR = '''
+%(gdefs)s
+def outer(cv):
+    def make(v):
+        w = %(w)r
+        return %(create)s
+    return make
+'''
+
+SC_EXECUTOR = '''
+%(gdefs)s
+def call(q, core, xg, xl):
+    %(ldefs)s
+    if xg is None: return core.get_globals_and_locals((q,), None, 0, from_generator=%(fromgen)s)
+    if xl is None: return core.get_globals_and_locals((q, xg), None, 0, from_generator=%(fromgen)s)
+    return core.get_globals_and_locals((q, xg, xl), None, 0, from_generator=%(fromgen)s)
+'''
+
+
+def scope_tie(ctx):
+    if not ctx.driver.ok: return
+    from pony.orm import core
+    from pony.orm.decompiling import decompile
+    base = e2e_setup()
+    rng = random.Random(ctx.seed * 4409 + 23)
+    reqs, reals, infos = [], [], []
+    exprs = ['GV + v', 'w * 2 + v', 'cv - v', 'GV', 'v', '(v if w else cv) + GV', 'GV * 2 - cv']
+    for i in range(ctx.scale(150, 2500)):
+        kind = rng.choice(['generator', 'function', 'text'])
+        expr = rng.choice(exprs)
+        used = sorted({n.id for n in ast.walk(ast.parse(expr, mode='eval')) if isinstance(n, ast.Name)})
+        val = lambda: rng.choice([-3, -1, 0, 1, 2, 5])
+        cre_globals = {n: val() for n in ('GV', 'X') if rng.random() < .8}
+        free = {'v': val(), 'w': val(), 'cv': val()}
+        cal_locals = {n: 9000 + j for j, n in enumerate(SC_NAMES) if rng.random() < .6}
+        cal_globals = {n: 9500 + j for j, n in enumerate(SC_NAMES) if rng.random() < .5}
+        explicit = rng.random() < .25
+        xg = {n: 9700 + j for j, n in enumerate(SC_NAMES) if rng.random() < .5} if explicit else None
+        xl = {n: 9800 + j for j, n in enumerate(SC_NAMES) if rng.random() < .5} if (explicit and rng.random() < .6) else None
+        text = 'p for p in P if p.x == (%s)' % expr
+        create = {'generator': '(%s)' % text, 'function': 'lambda p: p.x == (%s)' % expr, 'text': repr(text)}[kind]
+        GA = {'P': base['P']}; GB = {'P': base['P']}
+        exec(compile(SC_CREATOR % {'gdefs': '\n'.join('%s = %r' % kv for kv in cre_globals.items()) or 'pass', 'w': free['w'], 'create': create},
+                     '<c04-sc-a-%d>' % len(_keep), 'exec'), GA)
+        exec(compile(SC_EXECUTOR % {'gdefs': '\n'.join('%s = %r' % kv for kv in cal_globals.items()) or 'pass',
+                                    'ldefs': '; '.join('%s = %r' % kv for kv in cal_locals.items()) or 'pass',
+                                    'fromgen': kind != 'function' if kind != 'text' else rng.choice([True])},
+                     '<c04-sc-b-%d>' % len(_keep), 'exec'), GB)
+        _keep.append((GA, GB))
+        q = GA['outer'](free['cv'])(free['v'])
+        try:
+            func, g, l = GB['call'](q, core, dict(xg, P=base['P']) if xg is not None else None, xl)
+        except Exception as e:
+            ctx.count('scope:real-raises:' + type(e).__name__); continue
+        cells = None
+        if kind == 'function':
+            try: cells = decompile(func)[2]
+            except Exception:       # the body is too complex for the decompiler: the cells are what `decompile` computes first
+                ctx.count('scope:decompile-failed')
+                cells = dict(zip(func.__code__.co_freevars, func.__closure__ or ()))
+        real = {}
+        for n in SC_NAMES:
+            code = compile(n, '<name>', 'eval')
+            try:
+                vars, _ = core.extract_vars(('c04-scope', i, n), 0, {n: (lambda gg, ll, code=code: eval(code, gg, ll))}, g, l, cells)
+                real[n] = list(vars.values())[0]
+            except core.ExprEvalError:
+                real[n] = None
+        # model inputs, from the construction (not from the functions under test)
+        own_locals = {n: free[n] for n in ('v', 'w', 'cv') if n in used} if kind == 'generator' else {}
+        cell_env = {n: free[n] for n in ('v', 'w', 'cv') if n in used} if kind == 'function' else {}
+        global_names = [n for n in used if n in ('GV', 'X')] if kind != 'text' else []
+        env = lambda d: [[k, v] for k, v in d.items() if k in SC_NAMES]
+        # the executor's frame also holds its parameters (q, core, xg, xl): none of them is a test name
+        reqs.append({'op': 'resolve', 'kind': kind, 'names': SC_NAMES, 'callerLocals': env(cal_locals), 'callerGlobals': env(cal_globals),
+                     'ownLocals': env(own_locals), 'ownGlobals': env(cre_globals), 'cells': env(cell_env), 'globalNames': global_names,
+                     'explicitGlobals': env(xg) if xg is not None else None, 'explicitLocals': env(xl) if xl is not None else None})
+        reals.append([real[n] for n in SC_NAMES])
+        infos.append({'kind': kind, 'expr': expr, 'creator_globals': cre_globals, 'free': free, 'caller_locals': cal_locals,
+                      'caller_globals': cal_globals, 'explicit_globals': xg, 'explicit_locals': xl})
+    outs = ctx.driver('C04', reqs)
+    for info, real, o in zip(infos, reals, outs):
+        ctx.case(['scope', info], kind='scope:' + info['kind'] + (':explicit' if info['explicit_globals'] is not None else ''))
+        got = o.get('values') if 'driver_error' not in o else o
+        if got != real:
+            ctx.divergence('model of get_globals_and_locals/extract_vars and the real functions resolve a name differently', info,
+                           model=dict(zip(SC_NAMES, got)) if isinstance(got, list) else got, impl=dict(zip(SC_NAMES, real)))
+        else:
+            ctx.count('scope:equal')
